@@ -138,6 +138,30 @@ impl Cell {
 
 pub const REQUIRE_NAMES: &[&str] = &["zz_ext", "zz_ext.lua", "zz.core", "lib/zz_helpers.lua", "./zz_local", "zz.a.b.lua", "zz-dash", "zz.lua.bak"];
 
+/// Can system calls of a child be failed on purpose here? (ptrace may be unavailable in some sandboxes;
+/// then the fault cells are skipped and the evidence says so, rather than every one of them "failing".)
+pub fn strace_injection_works() -> bool {
+    use std::sync::OnceLock;
+    static OK: OnceLock<bool> = OnceLock::new();
+    *OK.get_or_init(|| {
+        let dir = format!("{}/{}-straceprobe", crate::supervisor::scratch_base(), std::process::id());
+        let _ = std::fs::create_dir_all(&dir);
+        let target = format!("{}/probe.txt", dir);
+        let out = Command::new("strace")
+            .args(["-f", "-o", "/dev/null", "-e", "trace=write", "-e", "inject=write:error=ENOSPC:when=1", "-P", &target, "sh", "-c"])
+            .arg(format!("echo probe > {}", target))
+            .stdin(Stdio::null())
+            .stdout(Stdio::null())
+            .stderr(Stdio::null())
+            .status();
+        // the injected ENOSPC makes the shell's echo fail; without injection it succeeds
+        let injected = matches!(out, Ok(s) if s.code() == Some(1) || s.code() == Some(2));
+        let plain = Command::new("strace").args(["-o", "/dev/null", "-e", "trace=write", "true"]).status().map(|s| s.success()).unwrap_or(false);
+        let _ = std::fs::remove_dir_all(&dir);
+        injected && plain
+    })
+}
+
 pub fn all_cells(req_a: &str, req_b: &str) -> Vec<Cell> {
     let mut out = Vec::new();
     let flags: Vec<(Option<String>, bool)> = vec![(None, false), (Some(req_a.into()), false), (None, true), (Some(req_b.into()), true)];
@@ -906,6 +930,10 @@ pub fn run_c20(tier: &str, batch_seed: u64) -> LayerBResult {
                         let e = expected_for(&prog, &root_used, &None, cell.no_std, main_missing);
                         exp_cache.insert(plain_key.clone(), e);
                     }
+                    if cell.fault.is_some() && !strace_injection_works() {
+                        *agg.lock().unwrap().observations.entry("system-call fault cells skipped: strace injection is not available here".to_string()).or_insert(0) += 1;
+                        continue;
+                    }
                     // a cell that keeps hanging costs 30 s each time: after a few, stop running that cell
                     let hung_before = { agg.lock().unwrap().hangs.get(&cell.label()).copied().unwrap_or(0) };
                     if hung_before >= 3 {
@@ -1324,7 +1352,7 @@ pub fn run_c07_processes(tier: &str, batch_seed: u64) -> LayerBResult {
                 let root = runner.layout(&prog, "p", false);
                 let spelling = ["absolute", "bare", "dot-slash", "relative-dir"][((i / 4 + i) % 4) as usize];
                 // every eighth program also meets a system-call fault while its sources are opened or read
-                let fault = if i % 8 == 3 {
+                let fault = if i % 8 == 3 && strace_injection_works() {
                     let other: Option<String> = prog.files.keys().find(|k| **k != prog.main).cloned();
                     let k = (i / 8) % 8;
                     let on = if k >= 4 { other.unwrap_or_else(|| "main".to_string()) } else { "main".to_string() };
